@@ -55,10 +55,10 @@ var bearerOf = map[string]string{
 
 type trackingWriter struct {
 	*httptest.ResponseRecorder
-	writes     int
-	callsAt    int
-	store      *modelstore.Store
-	started    bool
+	writes  int
+	callsAt int
+	store   *modelstore.Store
+	started bool
 }
 
 func (t *trackingWriter) mark() {
@@ -67,7 +67,11 @@ func (t *trackingWriter) mark() {
 		t.callsAt = t.store.CallCount()
 	}
 }
-func (t *trackingWriter) WriteHeader(code int) { t.mark(); t.writes++; t.ResponseRecorder.WriteHeader(code) }
+func (t *trackingWriter) WriteHeader(code int) {
+	t.mark()
+	t.writes++
+	t.ResponseRecorder.WriteHeader(code)
+}
 func (t *trackingWriter) Write(b []byte) (int, error) {
 	t.mark()
 	return t.ResponseRecorder.Write(b)
